@@ -917,6 +917,10 @@ void conn_disconnect_clean(xmpp_conn_t *conn)
  */
 void conn_disconnect(xmpp_conn_t *conn)
 {
+    /* nothing to do if the connection has already been torn down */
+    if (conn->state == XMPP_STATE_DISCONNECTED)
+        return;
+
     strophe_debug(conn->ctx, "xmpp", "Closing socket.");
     conn->state = XMPP_STATE_DISCONNECTED;
     conn->stream_negotiation_completed = 0;
